@@ -207,6 +207,9 @@ func (c *ConfigFile) validateCommonFields() (*ConfigFile, error) {
 	if c.Limits.Concurrency == nil {
 		return nil, errors.New("missing concurrency")
 	}
+	if *c.Limits.Concurrency < 1 {
+		return nil, fmt.Errorf("concurrency %d can't be less than 1", *c.Limits.Concurrency)
+	}
 	if c.Limits.MaxIterations == nil {
 		return nil, errors.New("missing max-iterations")
 	}
@@ -410,6 +413,9 @@ func (s *Stage) validateUsersStage(idx int, defaults Stage) (*Stage, error) {
 		}
 
 		s.Concurrency = defaults.Concurrency
+	}
+	if *s.Concurrency < 1 {
+		return nil, fmt.Errorf("concurrency %d can't be less than 1 at stage %d", *s.Concurrency, idx)
 	}
 	if s.Parameters == nil {
 		if defaults.Parameters == nil {
